@@ -198,6 +198,10 @@ func TimerDurations() []int64 { return nil }
 func ReadDeadlines() []int64  { return nil }
 func TimersFired() int        { return 0 }
 
+// ReadsWithoutDeadline: how often the library started waiting for a message on a connection
+// on which no (non-zero) read deadline was in force (engine only; natively 0).
+func ReadsWithoutDeadline() int { return 0 }
+
 // RedialsWithoutBackoff: dials to an address that was dialled before with no time.Sleep by
 // anybody since that previous dial (engine only; natively 0).
 func RedialsWithoutBackoff() int { return 0 }
